@@ -1,9 +1,12 @@
 import Driver.OpsValidate
+import Driver.OpsCarddav
 namespace Driver
 
 def dispatch (op : String) (args : List SExp) : Option OpResult :=
   match op with
   | "cal.validate" => opValidate args
+  | "card.match" => opCardMatch args
+  | "card.filter" => opCardFilter args
   | _ => none
 
 def process (line : String) : String :=
